@@ -9,6 +9,12 @@ kd = os.path.join(V, "known_findings.d")
 for f in sorted(os.listdir(kd)):
     if f.endswith(".json"):
         kf += json.load(open(os.path.join(kd, f)))
+fixsubj = {l.split()[0]: l for l in subprocess.run(["git", "-C", "/repo", "log", "--format=%h %s"], capture_output=True, text=True).stdout.splitlines() if l.strip()}
+for f in kf:
+    if f["status"] == "fixed":
+        c = f.get("commit", "")
+        if c not in fixsubj or " fix:" not in fixsubj[c]:
+            print("WARNING: fixed finding %s names commit %r which is not a fix: commit of /repo" % (f["key"], c))
 json.dump({"comment": "known: genuine defect recorded, its trigger class is excluded from generation and the probe prints KNOWN-FINDING; fixed: repaired by the named fix: commit in /repo, suppresses nothing (the probe is an ordinary assertion)", "findings": kf}, open(os.path.join(V, "known_findings.json"), "w"), indent=1)
 ready = set(open(os.path.join(V, "tools", "ready.txt")).read().split())
 conf = {k: v for k, v in conf.items() if k in ready}
